@@ -66,9 +66,12 @@ def structure_ok(A, F, role):
     if isinstance(A, ops.BlockDiag):
         if not isinstance(F, ops.BlockDiag):
             return False, f"{role}: BlockDiag input but factor is {type(F).__name__}"
-        if list(F.multiplicities) != list(A.multiplicities) or len(F.Ms) != len(A.Ms):
-            return False, f"{role}: multiplicities {F.multiplicities} for input {A.multiplicities}"
-        for Ac, Fc in zip(A.Ms, F.Ms):
+        # the same sequence of diagonal blocks (multiplicities may be spelled out or kept: both are block-wise)
+        Ab = [M for M, m in zip(A.Ms, A.multiplicities) for _ in range(m)]
+        Fb = [M for M, m in zip(F.Ms, F.multiplicities) for _ in range(m)]
+        if [tuple(M.shape) for M in Ab] != [tuple(M.shape) for M in Fb]:
+            return False, f"{role}: blocks {[tuple(M.shape) for M in Fb]} for input blocks {[tuple(M.shape) for M in Ab]}"
+        for Ac, Fc in zip(Ab, Fb):
             ok, why = structure_ok(Ac, Fc, role)
             if not ok:
                 return ok, why
